@@ -2,9 +2,11 @@ package props
 
 import (
 	"fmt"
+	"sort"
 	"testing"
 
 	"github.com/ChrisTrenkamp/xsel"
+	"github.com/ChrisTrenkamp/xsel/store"
 	"pgregory.net/rapid"
 
 	"verif/xast"
@@ -60,6 +62,10 @@ func genOverlap(g *xast.G, abs bool) *xast.Expr {
 			ax = g.Axis()
 		}
 		s := &xast.Step{Axis: ax, Test: g.Test(ax)}
+		if ax == "namespace" && rapid.Bool().Draw(t, "nsNameTest") {
+			// which namespace nodes a name test selects is not judged here; that none comes twice is
+			s.Test = xast.Test{K: "name", L: []string{"p", "q", "x", "y", "xml"}[rapid.IntRange(0, 4).Draw(t, "nsName")]}
+		}
 		if ax == "child" && rapid.Bool().Draw(t, "childPred") {
 			// a predicate-bearing child step after several (nested, reversed) context nodes
 			s.Preds = append(s.Preds, g.Pred(1))
@@ -77,10 +83,33 @@ func genOverlap(g *xast.G, abs bool) *xast.Expr {
 		}
 		p.Steps = append(p.Steps, s)
 	}
+	if rapid.IntRange(0, 7).Draw(t, "fnStep") == 0 {
+		// a user function as the last step: u:up() returns the parents of its context nodes as a proper node-set
+		p.Steps = append(p.Steps, &xast.Step{Call: xast.Call("u:up")})
+	}
 	if rapid.IntRange(0, 3).Draw(t, "overlapUnion") == 0 {
 		return xast.Union(p, genOverlap(g, abs))
 	}
 	return p
+}
+
+// c03Up is the user function u:up(): the parents of the nodes of
+// Context.Result(), each once, in document order (by Pos()).
+func c03Up(ctx xsel.Context, _ ...xsel.Result) (xsel.Result, error) {
+	ns, _ := ctx.Result().(xsel.NodeSet)
+	seen := map[store.Cursor]bool{}
+	out := xsel.NodeSet{}
+	for _, n := range ns {
+		if n.Pos() == 0 {
+			continue // the root has no parent
+		}
+		if par := n.Parent(); par != nil && !seen[par] {
+			seen[par] = true
+			out = append(out, par)
+		}
+	}
+	sort.Slice(out, func(i, j int) bool { return out[i].Pos() < out[j].Pos() })
+	return out, nil
 }
 
 func TestC03(t *testing.T) {
@@ -155,6 +184,7 @@ func checkC03(c *c03Case) error {
 		set = append(set, xsel.WithNS(k, v))
 	}
 	env := c.env(p)
+	set = append(set, xsel.WithNS("u", "urn:fn"), xsel.WithFunctionNS("urn:fn", "up", c03Up))
 	if c.W != nil {
 		w := xsel.NodeSet{}
 		for _, m := range env.Vars[xref.Name{Local: "w"}].Nodes {
